@@ -19,6 +19,20 @@ CHECKS = {
         note='Chain shapes are a finite enumeration (one CrossHair path per chain x settings class); the depth integers are '
              'symbolic (folded into range by modulo). Text is the canonical rendering; ALL mixed into a chain is unreachable '
              'through the public API and excluded. Oracle: spec/aliquot_spec.py.'),
+    'C03': dict(
+        engine='S', category='other', design_ref='DESIGN.md §4 C03',
+        technique='CrossHair symbolic execution of the real plss_parse glue on documents with provenance and contract finder '
+                  'patterns (symbolic document shape and parse mode), of the real PLSSDesc / Tract on token sequences, and of '
+                  'invalid-argument calls; path tree exhausted',
+        text='(1) For every document of 0..2 (quick) / 0..3 (thorough) labelled segments (Twp/Rge | section with/without colon | '
+             'multi-section range / list) separated by fillers from a table (empty, connector "of", short block, ordinary block, '
+             'cull-word block, comma, trigger words, ...) under each of 11 parse modes (default, both colon modes, segment, '
+             'sec_within, both, five forced layouts) the real PLSSParser returns without raising and yields >= 1 tract. (2) real '
+             'PLSSDesc / Tract on all sequences of 3 (2 for Tract) vocabulary tokens x separators x configs never raise. (3) 28 '
+             'invalid-argument calls raise exactly the documented exception type.',
+        note='The finder patterns are contract stubs in (1); their contract (canonical text -> exactly the labelled segments) is '
+             'the L-EXACT family of C01. Document invariant from the preprocessor: a Twp/Rge is followed by >= 1 character unless '
+             'it ends the text. Strings outside the vocabulary, unicode, and >3 segments are outside the bound.'),
     'C12': dict(
         engine='M+Z+S', category='model_checking', design_ref='DESIGN.md §4 C12',
         technique='SMT (z3): exact bounded encoding of re matching + regular-language inclusion on the live unpacker '
